@@ -108,8 +108,24 @@ def full_name(h):
     return _HOLDER.get(h["name"], h["name"])
 
 
+def own_contract_hash(h):
+    """hash of the contract file that defines the harness + the shared spec (edits to other contract files cannot change
+    this harness's verdict; if they break compilation the run is a tool error, which is never cached)"""
+    import snapshot
+    from common import read
+    full = full_name(h)
+    m = re.search(r"verif_(\w+)::%s$" % re.escape(h["name"]), full)
+    parts = []
+    if m:
+        for f in (m.group(1) + ".rs", "spec.rs"):
+            p = os.path.join(snapshot.KANI_DIR, f)
+            if os.path.exists(p):
+                parts.append(read(p))
+    return sha(*parts) if parts else None
+
+
 def harness_key(h, src_hash, contracts_hash):
-    return sha("kani", KANI_VERSION, src_hash, contracts_hash, h["name"], h["crate"], " ".join(h.get("args", [])),
+    return sha("kani", KANI_VERSION, src_hash, own_contract_hash(h) or contracts_hash, h["name"], h["crate"], " ".join(h.get("args", [])),
                str(h.get("timeout", "")))
 
 
